@@ -164,7 +164,9 @@ def run(ctx):
         if sclock < last and not uns:
             ctx.check(not acc, "R12.2", inst, uc.loc(), "a backwards jump between streams is accepted")
         else:
-            ctx.check(bool(acc), "R12.2", inst, uc.loc(), "a legal step is refused")
+            # refusing a legal step is C02's business (R2.6), not a failure to reject an invalid trace
+            ctx.ok("R12.2", inst, uc.loc(), "legal step: %s" % ("accepted" if acc else "refused (see C02 R2.6)"),
+                   nontrivial=False)
     propagate(ss, "R12.2", "step")
 
     # ---- R12.3 --------------------------------------------------------------------------------
